@@ -120,6 +120,12 @@ Theorem c04_c_tx_overflow_iff : forall tn fn pwr burst, (506 < length burst)%nat
 Proof. exact c_burst_req_oob. Qed.
 Print Assumptions c04_c_tx_overflow_iff.
 
+(* whatever trxcon sends has 6 + burst_len <= 512 octets: it fits the recvfrom(512) of the toolkit's data interface untruncated *)
+Theorem c04_c_tx_fits_recv : forall tn fn pwr burst o, c_burst_req tn fn pwr burst = TxSent o ->
+  (length o <= 512)%nat /\ length o = (6 + length burst)%nat.
+Proof. exact c_burst_req_fits. Qed.
+Print Assumptions c04_c_tx_fits_recv.
+
 (* ---- for ALL octet strings trx_data_rx_cb reads only octets it received ---- *)
 Theorem c04_c_rx_in_bounds : forall d, c_data_rx d <> RxOOB.
 Proof. exact c_data_rx_safe. Qed.
